@@ -1,6 +1,7 @@
 from __future__ import annotations
 
 import ast
+import collections
 import copy
 import itertools
 import re
@@ -155,15 +156,31 @@ def safe_callable_names(root: ast.Module) -> Collection[str]:
     Returns:
         Collection[str]: Names of all functions that have no side effect when called.
     """
-    defined_names = {node.id for node in core.walk(root, ast.Name(ctx=ast.Store))}
     function_defs = list(core.walk(root, (ast.FunctionDef, ast.AsyncFunctionDef)))
+    class_defs = list(core.walk(root, ast.ClassDef))
+
+    # A callable is identified by its bare name. That only works for a name that is bound exactly
+    # once, by a def or class statement: not for parameters, imports, assignment / loop / with /
+    # except targets, and not for a name that several definitions (e.g. a function and a method) share.
+    rebound_names = {node.id for node in core.walk(root, ast.Name(ctx=ast.Store))}
+    rebound_names.update(node.arg for node in core.walk(root, ast.arg))
+    rebound_names.update(
+        (alias.asname or alias.name).split(".")[0]
+        for node in core.walk(root, (ast.Import, ast.ImportFrom))
+        for alias in node.names
+    )
+    rebound_names.update(node.name for node in core.walk(root, ast.ExceptHandler) if node.name)
+    definition_counts = collections.Counter(node.name for node in function_defs + class_defs)
+    ambiguous_names = {name for name, count in definition_counts.items() if count > 1}
+
     safe_callables = set(constants.SAFE_CALLABLES)
     safe_callable_nodes = set()
     changes = True
     while changes:
         changes = False
         for node in function_defs:
-            if node.name in defined_names:
+            # A decorator replaces the function by whatever it returns
+            if node.name in rebound_names or node.decorator_list:
                 continue
             nonreturn_children = []
             for child in node.body:
@@ -182,12 +199,18 @@ def safe_callable_names(root: ast.Module) -> Collection[str]:
                 for child in itertools.chain(nonreturn_children, return_children)
             ):
                 safe_callable_nodes.add(node)
-                safe_callables.add(node.name)
+                if node.name not in ambiguous_names:
+                    safe_callables.add(node.name)
                 changes = True
 
-        function_defs = [node for node in function_defs if node.name not in safe_callables]
+        function_defs = [node for node in function_defs if node not in safe_callable_nodes]
 
-    for node in core.walk(root, ast.ClassDef):
+    for node in class_defs:
+        # Base classes, a metaclass or a decorator may bring their own constructor
+        if node.bases or node.keywords or node.decorator_list:
+            continue
+        if node.name in rebound_names or node.name in ambiguous_names:
+            continue
         constructors = {
             child
             for child in node.body
